@@ -19,6 +19,12 @@ CHECKS = {
         text='Every program M0 c1..cK over the 20 command letters (K<=4 quick, K<=5 thorough in spaced style; K<=3/4 in all 8 lexical styles) is parsed by the real parser and by the reference interpreter; all 100 command-class transitions of the parser state machine are exercised. The property quantifies over programs, and the parser is a small state machine whose defects are interactions of consecutive commands, so bounded-exhaustive program enumeration is the fitting level.',
         note='Trusted: mc/refsvg.py as the reading of the SVG specification (its recogniser is cross-checked against its renderer on every case). Bound: K, fixed argument pool (7 rotations), 8 styles; trailing-dot numbers and arcs ending at their start excluded.',
         design='4/C02'),
+    'C01': dict(
+        level='model_checking',
+        technique='exhaustive enumeration of all words over segment templates up to length N x coordinate embeddings x all 8 serialiser option combinations; round trip through the real Path.d and the real parser, cross-read by an independent path-data interpreter',
+        text='Every word of segment templates (kind x start relation x control relation x end target x arc parameters) up to the bound is built, serialised under all 8 option combinations and re-parsed; the composition must be the identity (exact in absolute form, rounding-bounded in relative form). The serialiser and parser are small transducers whose defects are interactions between neighbouring segments and options, which bounded-exhaustive words reach.',
+        note='Trusted: mc/refsvg.py as independent reader. Bound: word length (full alphabet <=2 quick / <=3 thorough; reduced alphabet <=3 / <=4; closed-through-start family <=5 / <=6), six coordinate embeddings, arc pool of six.',
+        design='4/C01'),
 }
 
 NOT_YET = {}
